@@ -80,6 +80,8 @@ GRead == /\ "read" \in Groups /\ nmut = 0
             \/ \E r \in Ix(WR) : Do("row", [r |-> r], FALSE)
             \/ \E c \in Ix(WC) : Do("col", [c |-> c], FALSE)
             \/ Do("size", NoArg, FALSE)
+            \/ Do("debug", NoArg, FALSE)
+            \/ LeafMutable /\ Do("as_view", NoArg, FALSE)      \* the shared view made from a mutable one addresses the same cells
 GWrite == /\ "write" \in Groups /\ LeafMutable /\ nmut < MutDepth
           /\ \/ \E op \in {"idxm_coord", "idxm_row", "colm_idxm", "colm_idx"}, c \in Ix(WC), r \in Ix(WR) :
                    Do(op, [c |-> c, r |-> r, v |-> Fresh], TRUE)
